@@ -86,7 +86,7 @@ Definition mem_script_cfg (nout : nat) (minpool : N) (maxfields : nat) : mem_con
   {| c_params := {| p_min_pool := minpool; p_max_msg := 1048576; p_max_rec := 1048832 |};
      c_nfields := maxfields; c_maxfields := maxfields; c_level_sites := None; c_cfg_init := [];
      c_extract := []; c_transforms := []; c_outputs := repeat {| oc_env := []; oc_hidden := []; oc_rewrite := [] |} nout;
-     c_trunc_mode := TruncCopy; c_rw_sets_flag := true |}.
+     c_trunc_mode := TruncCopy; c_rw_sets_flag := false |}.
 
 Definition mem_with_slots (g : mem_gstate) (slots : list mem_slot) (bufs : list mem_buf) : mem_gstate :=
   {| g_slots := slots; g_bufs := bufs; g_cfg := g_cfg g; g_dirty := g_dirty g; g_next_rid := g_next_rid g;
@@ -297,7 +297,9 @@ Definition mem_dec_out (zs : list Z) : option (mem_outcfg * list Z) :=
   end.
 End Decode.
 
-Definition mem_nfields : nat := 12.
+(* 13 named fields: the 12 of the schema the allocator and the parser were created for plus one appended by a
+   configuration reload (index 12); LogRecord.Fields has 14 entries (schema maxFields) *)
+Definition mem_nfields : nat := 13.
 Definition mem_maxfields : nat := 14.
 
 Record mem_pipe_case := {
@@ -326,7 +328,7 @@ Definition mem_decode_pipeline (ss : list bytes) (zs : list Z) : option mem_pipe
                                    c_level_sites := if (lm =? 0)%Z then None else Some 0%nat;
                                    c_cfg_init := lits; c_extract := ex; c_transforms := tr; c_outputs := outs;
                                    c_trunc_mode := if (tm =? 0)%Z then TruncInPlace else TruncCopy;
-                                   c_rw_sets_flag := true |};
+                                   c_rw_sets_flag := false |};
                       pc_inputs := combine inputs tss;
                       pc_batches := map mem_zn bs |}
             | None => None
